@@ -4,4 +4,4 @@ From Verif Require Import RegAlloc.RaIRModel RegAlloc.RwRuleModel.
 Extraction Blacklist List String Int.
 Extraction "rair.ml" RaIRModel.validate_full RaIRModel.validate RaIRModel.infer RaIRModel.check RaIRModel.first_bad RaIRModel.check_pc
   RaIRModel.check_progress RaIRModel.infer_ranks RaIRModel.srun RaIRModel.trun
-  RwRuleModel.classify RwRuleModel.idiom_of.
+  RwRuleModel.classify RwRuleModel.idiom_of RaIRModel.consec_ok RaIRModel.lists_ok.
